@@ -347,4 +347,237 @@ theorem if_same_then_else_canon {toks : List String} {seps : List Nat} {P : Bloc
 
 end IfSameThenElse
 
+/-! ## ifs_same_cond -/
+section IfsSameCond
+open IfsSameCond SideEffects
+
+/-- `side_effects.rs` is exactly the documented "performs a call" test *with bracket indices left unexamined* -/
+theorem suffixesSE_eq : ∀ ss : SuffixList, suffixesSE ss = Doc.callsSs false ss
+  | .nil => by simp [suffixesSE, Doc.callsSs]
+  | .cons s rest => by
+    cases s <;> simp [suffixesSE, Doc.callsSs, Doc.callsS, suffixSE, suffixesSE_eq rest]
+
+mutual
+theorem exprSE_eq : ∀ e : Expr, exprSE e = Doc.calls false e
+  | .bin _ l _ r => by simp [exprSE, Doc.calls, exprSE_eq l, exprSE_eq r]
+  | .paren _ e => by simp [exprSE, Doc.calls, exprSE_eq e]
+  | .un _ _ e => by simp [exprSE, Doc.calls, exprSE_eq e]
+  | .call _ => by simp [exprSE, Doc.calls]
+  | .tbl _ fs => by simp [exprSE, Doc.calls, fieldsSE_eq fs]
+  | .var v => by simp [exprSE, Doc.calls, varSE_eq v]
+  | .unsupported _ => by simp [exprSE, Doc.calls]
+  | .func _ _ _ => by simp [exprSE, Doc.calls]
+  | .num _ => by simp [exprSE, Doc.calls]
+  | .str _ _ _ => by simp [exprSE, Doc.calls]
+  | .nil _ => by simp [exprSE, Doc.calls]
+  | .true_ _ => by simp [exprSE, Doc.calls]
+  | .false_ _ => by simp [exprSE, Doc.calls]
+  | .dots _ => by simp [exprSE, Doc.calls]
+theorem fieldsSE_eq : ∀ fs : FieldList, fieldsSE fs = Doc.callsFs false fs
+  | .nil => by simp [fieldsSE, Doc.callsFs]
+  | .cons f rest => by simp [fieldsSE, Doc.callsFs, fieldSE_eq f, fieldsSE_eq rest]
+theorem fieldSE_eq : ∀ f : Field, fieldSE f = Doc.callsF false f
+  | .exprKey _ k v => by simp [fieldSE, Doc.callsF, exprSE_eq k, exprSE_eq v]
+  | .nameKey _ _ v => by simp [fieldSE, Doc.callsF, exprSE_eq v]
+  | .noKey v => by simp [fieldSE, Doc.callsF, exprSE_eq v]
+  | .unsupported _ => by simp [fieldSE, Doc.callsF]
+theorem varSE_eq : ∀ v : Var, varSE v = Doc.callsV false v
+  | .name _ => by simp [varSE, Doc.callsV]
+  | .expr _ p ss => by simp [varSE, Doc.callsV, prefixSE_eq p, suffixesSE_eq ss]
+theorem prefixSE_eq : ∀ p : Prefix, prefixSE p = Doc.callsP false p
+  | .expr e => by simp [prefixSE, Doc.callsP, exprSE_eq e]
+  | .name _ => by simp [prefixSE, Doc.callsP]
+end
+
+theorem cond_scan_sound {toks : List String} {seps : List Nat} {g : Diag} : ∀ {rest seen : List Expr},
+    (∀ o ∈ seen, exprSE o = false) → g ∈ scan toks seps seen rest →
+    ∃ x y, x ∈ seen ++ rest ∧ y ∈ rest ∧ exprSE x = false ∧ exprSE y = false ∧
+      simToks toks seps x.span = simToks toks seps y.span ∧ g.primary = y.span ∧ g.secondary = [x.span]
+  | [], seen, _, h => by simp [scan] at h
+  | c :: rest, seen, hseen, h => by
+    unfold scan at h
+    have lift : (∃ x y, x ∈ seen ++ rest ∧ y ∈ rest ∧ exprSE x = false ∧ exprSE y = false ∧
+        simToks toks seps x.span = simToks toks seps y.span ∧ g.primary = y.span ∧ g.secondary = [x.span]) →
+        ∃ x y, x ∈ seen ++ c :: rest ∧ y ∈ c :: rest ∧ exprSE x = false ∧ exprSE y = false ∧
+        simToks toks seps x.span = simToks toks seps y.span ∧ g.primary = y.span ∧ g.secondary = [x.span] := by
+      rintro ⟨x, y, hx, hy, r⟩
+      refine ⟨x, y, ?_, by simp [hy], r⟩
+      simp only [List.mem_append, List.mem_cons] at hx ⊢
+      rcases hx with hx | hx
+      · exact Or.inl hx
+      · exact Or.inr (Or.inr hx)
+    by_cases hc : exprSE c = true
+    · simp only [hc, if_true] at h
+      exact lift (cond_scan_sound hseen h)
+    · simp only [hc] at h
+      have hc' : exprSE c = false := by simpa using hc
+      cases hf : seen.find? (fun o => similar toks seps o c) with
+      | some o =>
+        simp only [hf] at h
+        rcases List.mem_cons.mp h with h | h
+        · subst h
+          have hmem := List.mem_of_find?_eq_some hf
+          have hsim := List.find?_some hf
+          refine ⟨o, c, by simp [hmem], by simp, hseen o hmem, hc', ?_, rfl, rfl⟩
+          simpa [similar] using hsim
+        · exact lift (cond_scan_sound hseen h)
+      | none =>
+        simp only [hf] at h
+        have hseen' : ∀ o ∈ seen ++ [c], exprSE o = false := by
+          intro o ho
+          simp only [List.mem_append, List.mem_cons, List.not_mem_nil, or_false] at ho
+          rcases ho with ho | ho
+          · exact hseen o ho
+          · subst ho; exact hc'
+        obtain ⟨x, y, hx, hy, r⟩ := cond_scan_sound hseen' h
+        refine ⟨x, y, ?_, by simp [hy], r⟩
+        simp only [List.mem_append, List.mem_cons, List.not_mem_nil, or_false] at hx ⊢
+        rcases hx with (hx | hx) | hx
+        · exact Or.inl hx
+        · exact Or.inr (Or.inl hx)
+        · exact Or.inr (Or.inr hx)
+
+/-- soundness as the code is: a reported condition repeats, token for token, another condition of the same `if`,
+    and neither performs a call *outside bracket indices* -/
+theorem ifs_same_cond_sound {toks : List String} {seps : List Nat} {P : Block} {g : Diag} (h : g ∈ run toks seps P) :
+    ∃ sp c b elifs els x y, Node.stmt (.if_ sp c b elifs els) ∈ nBlock P ∧
+      x ∈ c :: elifs.toList.map elifCond ∧ y ∈ elifs.toList.map elifCond ∧
+      simToks toks seps x.span = simToks toks seps y.span ∧ g.primary = y.span ∧ g.secondary = [x.span] ∧
+      Doc.calls false x = false ∧ Doc.calls false y = false := by
+  obtain ⟨n, hn, hg⟩ := List.mem_flatMap.mp h
+  cases n with
+  | stmt s =>
+    cases s <;> simp only [collect, List.not_mem_nil] at hg
+    case if_ sp c b elifs els =>
+      have hseen : ∀ o ∈ (if exprSE c = true then [] else [c]), exprSE o = false := by
+        intro o ho
+        by_cases hc : exprSE c = true
+        · simp [hc] at ho
+        · simp [hc] at ho; subst ho; simpa using hc
+      obtain ⟨x, y, hx, hy, h1, h2, h3, h4, h5⟩ := cond_scan_sound hseen hg
+      refine ⟨sp, c, b, elifs, els, x, y, hn, ?_, hy, h3, h4, h5, by rw [← exprSE_eq]; exact h1, by rw [← exprSE_eq]; exact h2⟩
+      simp only [List.mem_append, List.mem_cons] at hx ⊢
+      rcases hx with hx | hx
+      · by_cases hc : exprSE c = true
+        · simp [hc] at hx
+        · simp [hc] at hx; exact Or.inl hx
+      · exact Or.inr hx
+  | block b => simp [collect] at hg
+  | last l => simp [collect] at hg
+  | call c => simp [collect] at hg
+
+/-- … hence the documented condition, for conditions in which no call hides inside a bracket index -/
+theorem ifs_same_cond_sound_doc {toks : List String} {seps : List Nat} {P : Block} {g : Diag} (h : g ∈ run toks seps P)
+    (hidx : ∀ e : Expr, e.span = g.primary ∨ [e.span] = g.secondary → Doc.calls true e = Doc.calls false e) :
+    ∃ sp c b elifs els x y, Node.stmt (.if_ sp c b elifs els) ∈ nBlock P ∧
+      x ∈ c :: elifs.toList.map elifCond ∧ y ∈ elifs.toList.map elifCond ∧
+      simToks toks seps x.span = simToks toks seps y.span ∧ g.primary = y.span ∧
+      Doc.callsE x = false ∧ Doc.callsE y = false := by
+  obtain ⟨sp, c, b, elifs, els, x, y, hn, hx, hy, h3, h4, h5, h6, h7⟩ := ifs_same_cond_sound h
+  refine ⟨sp, c, b, elifs, els, x, y, hn, hx, hy, h3, h4, ?_, ?_⟩
+  · unfold Doc.callsE; rw [hidx x (Or.inr h5.symm)]; exact h6
+  · unfold Doc.callsE; rw [hidx y (Or.inl h4.symm)]; exact h7
+
+/-- `if a[f()] then elseif a[f()] then end`, tokens `if a [ f ( ) ] then elseif a [ f ( ) ] then end` -/
+def indexCallCond (i : Nat) : Expr :=
+  .var (.expr ⟨i, i + 4⟩ (.name ⟨i, "a"⟩) (.cons (.idx ⟨i + 1, i + 4⟩
+    (.call (.mk ⟨i + 2, i + 4⟩ (.name ⟨i + 2, "f"⟩) (.cons (.args ⟨i + 3, i + 4⟩ (.parens ⟨i + 3, i + 4⟩ .nil)) .nil)))) .nil))
+
+def indexCallProgram : Block :=
+  .mk (some ⟨0, 16⟩) (.cons (.if_ ⟨0, 16⟩ (indexCallCond 1) (.mk none .nil .none)
+    (.cons (.mk ⟨8, 15⟩ (indexCallCond 9) (.mk none .nil .none)) .nil) .none) .nil) .none
+
+def indexCallToks : List String :=
+  ["if", "a", "[", "f", "(", ")", "]", "then", "elseif", "a", "[", "f", "(", ")", "]", "then", "end"]
+
+/-- the departure: a call inside a bracket index is not seen, the repeated condition is reported -/
+theorem ifs_same_cond_index_witness :
+    (run indexCallToks [] indexCallProgram).map (·.primary) = [⟨9, 13⟩] ∧ Doc.callsE (indexCallCond 9) = true := by
+  decide
+
+mutual
+theorem calls_mono : ∀ e : Expr, Doc.calls false e = true → Doc.calls true e = true
+  | .bin _ l _ r => by
+    simp only [Doc.calls, Bool.or_eq_true]
+    rintro (h | h)
+    · exact Or.inl (calls_mono l h)
+    · exact Or.inr (calls_mono r h)
+  | .paren _ e => by simp only [Doc.calls]; exact calls_mono e
+  | .un _ _ e => by simp only [Doc.calls]; exact calls_mono e
+  | .call _ => by simp [Doc.calls]
+  | .tbl _ fs => by simp only [Doc.calls]; exact callsFs_mono fs
+  | .var v => by simp only [Doc.calls]; exact callsV_mono v
+  | .unsupported _ => by simp [Doc.calls]
+  | .func _ _ _ => by simp [Doc.calls]
+  | .num _ => by simp [Doc.calls]
+  | .str _ _ _ => by simp [Doc.calls]
+  | .nil _ => by simp [Doc.calls]
+  | .true_ _ => by simp [Doc.calls]
+  | .false_ _ => by simp [Doc.calls]
+  | .dots _ => by simp [Doc.calls]
+theorem callsFs_mono : ∀ fs : FieldList, Doc.callsFs false fs = true → Doc.callsFs true fs = true
+  | .nil => by simp [Doc.callsFs]
+  | .cons f rest => by
+    simp only [Doc.callsFs, Bool.or_eq_true]
+    rintro (h | h)
+    · exact Or.inl (callsF_mono f h)
+    · exact Or.inr (callsFs_mono rest h)
+theorem callsF_mono : ∀ f : Field, Doc.callsF false f = true → Doc.callsF true f = true
+  | .exprKey _ k v => by
+    simp only [Doc.callsF, Bool.or_eq_true]
+    rintro (h | h)
+    · exact Or.inl (calls_mono k h)
+    · exact Or.inr (calls_mono v h)
+  | .nameKey _ _ v => by simp only [Doc.callsF]; exact calls_mono v
+  | .noKey v => by simp only [Doc.callsF]; exact calls_mono v
+  | .unsupported _ => by simp [Doc.callsF]
+theorem callsV_mono : ∀ v : Var, Doc.callsV false v = true → Doc.callsV true v = true
+  | .name _ => by simp [Doc.callsV]
+  | .expr _ p ss => by
+    simp only [Doc.callsV, Bool.or_eq_true]
+    rintro (h | h)
+    · exact Or.inl (callsP_mono p h)
+    · exact Or.inr (callsSs_mono ss h)
+theorem callsP_mono : ∀ p : Prefix, Doc.callsP false p = true → Doc.callsP true p = true
+  | .expr e => by simp only [Doc.callsP]; exact calls_mono e
+  | .name _ => by simp [Doc.callsP]
+theorem callsSs_mono : ∀ ss : SuffixList, Doc.callsSs false ss = true → Doc.callsSs true ss = true
+  | .nil => by simp [Doc.callsSs]
+  | .cons s rest => by
+    simp only [Doc.callsSs, Bool.or_eq_true]
+    rintro (h | h)
+    · exact Or.inl (callsS_mono s h)
+    · exact Or.inr (callsSs_mono rest h)
+theorem callsS_mono : ∀ s : Suffix, Doc.callsS false s = true → Doc.callsS true s = true
+  | .args _ _ => by simp [Doc.callsS]
+  | .meth _ _ _ => by simp [Doc.callsS]
+  | .dot _ _ => by simp [Doc.callsS]
+  | .idx _ _ => by simp [Doc.callsS]
+  | .unsupported _ => by simp [Doc.callsS]
+end
+
+/-- the code never calls a condition side-effect free that the documentation does not: the only gap is the other way -/
+theorem exprSE_false_of_doc {e : Expr} (h : Doc.callsE e = false) : exprSE e = false := by
+  rw [exprSE_eq]
+  cases hf : Doc.calls false e with
+  | false => rfl
+  | true => have := calls_mono e hf; unfold Doc.callsE at h; rw [h] at this; cases this
+
+/-- canonical `if foo then … elseif foo then … end` (conditions that perform no call), anywhere -/
+theorem ifs_same_cond_canon {toks : List String} {seps : List Nat} {P : Block} {sp esp : Span} {c c2 : Expr} {b b2 : Block}
+    {rest : ElseIfList} {els : OptBlock}
+    (hw : Within (.block P) (.stmt (.if_ sp c b (.cons (.mk esp c2 b2) rest) els)))
+    (hc : Doc.callsE c = false) (hc2 : Doc.callsE c2 = false)
+    (heq : simToks toks seps c.span = simToks toks seps c2.span) :
+    ∃ g ∈ run toks seps P, g.primary = c2.span ∧ g.secondary = [c.span] := by
+  have h1 : exprSE c = false := exprSE_false_of_doc hc
+  have h2 : exprSE c2 = false := exprSE_false_of_doc hc2
+  refine ⟨{ code := "ifs_same_cond", primary := c2.span, msg := IfsSameCond.msg, secondary := [c.span] }, ?_, rfl, rfl⟩
+  refine mem_run_of_within_stmt (collect toks seps) hw ?_
+  simp [collect, ElseIfList.toList, elifCond, scan, h1, h2, similar, heq]
+
+example : Doc.callsE (.var (.name ⟨1, "foo"⟩)) = false := by decide
+
+end IfsSameCond
+
 end Selene.Props.C04B
